@@ -85,7 +85,7 @@ def finish(a):
 
 HBASE = P.case(state="scalar", horizon="Tfree", vg=True, cons=[P.con("bc0")], obj=["mayer_tf", "integral", "T", "vg"], method="MS", N=2)
 HALPHA = [
-    ["set_initial", "x", "expr", "lin"], ["set_initial", "x", "const", 0.4], ["set_initial", "u", "expr", "sin"],
+    ["set_initial", "x", "expr", "lin"], ["set_initial", "x", "expr", "sin"], ["set_initial", "x", "const", 0.4], ["set_initial", "u", "expr", "sin"],
     ["set_initial", "u", "arrN", 0], ["set_initial", "T", "const", 3.1], ["set_initial", "T", "const", 0.8],
     ["set_initial", "vg", "const", 0.6], ["query", "sample"], ["solve"], ["subject_to", P.con("x_le")], ["method", "DC2"],
 ]
@@ -560,6 +560,6 @@ def run_case(case):
 
 def describe(tier):
     return dict(
-        rule="(g) SplineMethod with one vector state whose components are in chains of different lengths: a vector guess gives every component its own values; (f) DAE with a two-branch algebraic equation under MS/SS with the collocation / idas integrators and under DC: every history of length <=3 over {solve, query, guess of u, edit, guess of z on either branch}: next solve = fresh OCP with the final guesses; (e) global variables of shape 1xN, 1x(N+1), 2xN, Nx1 x {constant, matrix} guess x method x {before, after}: start value = guess entry by entry; (d) DAE with 2-3 algebraic variables of widths from {1,2,3} under DirectCollocation x target x {constant, time expression} x {before, after a first transcription}: the guess is the start value of exactly that variable at every collocation time, the others start at 0; (c) SplineMethod: chain length x N x grid x {constant, affine-in-time} guess of the chain head x {fixed, free horizon with a guess of T before/after}: head and derived members start on the guess (spline coefficients at Greville points reproduce affine functions exactly); (a) deviation-bounded enumeration over target (state, control, global / per-interval / control+ variable, algebraic, T, t0) x guess form (scalar, vector, n x N, n x (N+1), 1-D numpy, DM row, time expression) x second call (same target again, guess of T before/after, control expression) x method/N/M/degree/grid/horizon/scale plus the full target x form x method x grid table: the public read-back of opti's starting point equals an independent guess evaluator (entries the statement leaves open are excluded and counted); rows/objective unchanged; (b) every history of length <= d over 11 ops (guesses incl. dependent ones, query, solve, edit, method), and over 6 ops (two guesses of T, time-expression guesses, query, solve) on 4 grids with their own time variables (localized t0 / T, free): next solve = fresh OCP and = the evaluator",
+        rule="(g) SplineMethod with one vector state whose components are in chains of different lengths: a vector guess gives every component its own values; (f) DAE with a two-branch algebraic equation under MS/SS with the collocation / idas integrators and under DC: every history of length <=3 over {solve, query, guess of u, edit, guess of z on either branch}: next solve = fresh OCP with the final guesses; (e) global variables of shape 1xN, 1x(N+1), 2xN, Nx1 x {constant, matrix} guess x method x {before, after}: start value = guess entry by entry; (d) DAE with 2-3 algebraic variables of widths from {1,2,3} under DirectCollocation x target x {constant, time expression} x {before, after a first transcription}: the guess is the start value of exactly that variable at every collocation time, the others start at 0; (c) SplineMethod: chain length x N x grid x {constant, affine-in-time} guess of the chain head x {fixed, free horizon with a guess of T before/after}: head and derived members start on the guess (spline coefficients at Greville points reproduce affine functions exactly); (a) deviation-bounded enumeration over target (state, control, global / per-interval / control+ variable, algebraic, T, t0) x guess form (scalar, vector, n x N, n x (N+1), 1-D numpy, DM row, time expression) x second call (same target again, guess of T before/after, control expression) x method/N/M/degree/grid/horizon/scale plus the full target x form x method x grid table: the public read-back of opti's starting point equals an independent guess evaluator (entries the statement leaves open are excluded and counted); rows/objective unchanged; (b) every history of length <= d over 12 ops (guesses incl. dependent ones and two different time expressions for the same state, query, solve, edit, method), and over 6 ops (two guesses of T, time-expression guesses, query, solve) on 4 grids with their own time variables (localized t0 / T, free): next solve = fresh OCP and = the evaluator",
         bound="k<=%d deviations + table; history depth %d" % ((3, 4) if tier == "thorough" else (2, 3)),
         assumptions=["CasADi Opti.initial() is the solver's starting point", "array guesses do not pin helper states / final-node entries beyond their columns (excluded, counted)", "time-expression guesses on FreeGrid are not pinned (no declared partition)"])
